@@ -23,6 +23,7 @@
 typedef struct {
     vnacal_type_t type;
     int rows, cols;
+    int mini;		/* reduced universe (3 ports in the quick tier) */
 } shape_t;
 
 static const shape_t shapes_quick[] = {
@@ -38,6 +39,11 @@ static const shape_t shapes_quick[] = {
     { VNACAL_TE10, 1, 2 }, { VNACAL_UE10, 2, 1 },
     { VNACAL_UE14, 2, 1 }, { VNACAL_E12, 2, 1 },
     { VNACAL_T16, 1, 2 },  { VNACAL_U16, 2, 1 },
+    /* three ports with a reduced universe {S1, O1, M1, T12, T13, chain}:
+       a standard whose ports 1 and 3 are connected only through port 2 */
+    { VNACAL_TE10, 3, 3, 1 }, { VNACAL_UE10, 3, 3, 1 },
+    { VNACAL_UE14, 3, 3, 1 }, { VNACAL_E12, 3, 3, 1 },
+    { VNACAL_T8, 3, 3, 1 },
 };
 #define NSHAPE_QUICK ((int)(sizeof(shapes_quick) / sizeof(shapes_quick[0])))
 static const shape_t shapes_more[] = {
@@ -144,7 +150,13 @@ static int universe(cs_scenario *sc, const shape_t *sh, int tier)
 	}
 	return sc->nstd;
     }
-    {
+    if (sh->mini) {
+	int r[3] = { PS, PO, PM };
+	for (int k = 0; k < 3; ++k)
+	    add_std(sc, CSE_SINGLE, 1, 1, 0, &r[k], NULL);
+	add_std(sc, CSE_THROUGH, 2, 1, 2, NULL, through_v);
+	add_std(sc, CSE_THROUGH, 2, 1, 3, NULL, through_v);
+    } else {
 	int r[3] = { PS, PO, PM };
 	for (int port = 1; port <= sq; ++port)
 	    for (int k = 0; k < 3; ++k)
@@ -162,6 +174,24 @@ static int universe(cs_scenario *sc, const shape_t *sh, int tier)
 	    add_std(sc, CSE_LINE, 2, 1, 2, ln, NULL);
 	    add_std(sc, CSE_DOUBLE, 2, 1, 2, sp, NULL);
 	}
+    }
+    if (P == 3) {
+        /* three-port chain: 1-2 and 2-3 coupled, direct 1-3 transfer
+           explicitly zero (ports 1 and 3 connected through port 2) */
+        cs_std *st = &sc->std[sc->nstd++];
+        static const int sp[9] = { PL11, PL12, -1,
+    			       PL21, PL22, PL12,
+    			       -1,   PL21, PM };
+        memset(st, 0, sizeof(*st));
+        st->entry = CSE_MAPPED;
+        st->np = 3;
+        st->null_map = true;
+        for (int i = 0; i < 3; ++i)
+    	st->port[i] = i + 1;
+        for (int i = 0; i < 9; ++i) {
+    	st->sp[i] = sp[i];
+    	st->sv[i] = 0.0;
+        }
     }
     return sc->nstd;
 }
